@@ -342,10 +342,10 @@ def histories(job, mode, pairs):
                     break
                 r1, _, r3 = leaf.value
                 a, b = nums(r1), nums(r3)
-                cg = sorted({nm for (_, nm, _) in Pure.tab.values()})
                 if len(a) != len(b):
                     job.record("%s/leaf%d" % (tag, n), "violated", "result shapes differ", replay={"fn": R_, "inputs": {"entry": "all"}})
                 else:
+                    cg = sorted({nm for (_, nm, _) in Pure.tab.values()})
                     job.prove("%s/leaf%d" % (tag, n), dom + leaf.conds(), [lift(p) != lift(q) for p, q in zip(a, b)], R_, {"entry": "all"},
                               fallback=[{"entry": "all"}], timeout=20, congruence=cg)
             if n == 0:
